@@ -34,7 +34,7 @@ ASSUMPTIONS = [
 ]
 PROBES = ["completed_by_software_rstack", "nonsoftware_rstack_during_reset", "error_during_reset", "timeout_exact", "tie_at_deadline",
           "rstack_before_request", "rstack_twice", "reply_duplicated_in_one_read", "reset_with_queued_send", "late_rstack_after_timeout", "loss_while_reset_pending", "loss_while_startup_pending",
-          "eof_while_pending", "close_while_pending", "data_frame_unacknowledged_at_loss", "both_waiters_pending_at_loss", "transport_closed_underneath", "retry_after_timeout", "joined_existing_reset", "counters_nonzero_before", "sched.batch", "sched.reorder"]
+          "eof_while_pending", "close_while_pending", "data_frame_unacknowledged_at_loss", "both_waiters_pending_at_loss", "data_frame_unacknowledged_when_handshake_completes", "transport_closed_underneath", "retry_after_timeout", "joined_existing_reset", "counters_nonzero_before", "sched.batch", "sched.reorder"]
 
 SW = R.RESET_SOFTWARE
 ARRIVALS = ("before", "now", "mid", "deadline", "after", "twice", "never", "double")
@@ -75,6 +75,9 @@ def plan(tier):
     for loss in ("after_rst", "eof_after_rst", "close_after_rst", "tclose_after_rst"):
         for order in ("startup-first", "reset-first"):
             sweeps.append(("both", {"loss": loss, "order": order, "sched": False}))
+    for tx in (range(8) if tier == "thorough" else (0, 3, 7)):
+        for when in ("before-rst", "after-rst"):
+            sweeps.append(("stale", {"tx": tx, "rx": (tx * 5) % 8, "when": when, "sched": False}))
     for seqs in (("never", "now"), ("never", "never"), ("after", "now"), ("now", "now")):
         sweeps.append(("chain", {"arrivals": list(seqs), "sched": False}))
     sweeps.append(("join", {"sched": False}))
@@ -236,6 +239,8 @@ def run(scenario, params, tape, detail=False):
         return run_queued(params, tape, detail)
     if scenario == "both":
         return run_both(params, tape, detail)
+    if scenario == "stale":
+        return run_stale(params, tape, detail)
     return run_chain(scenario, params, tape, detail)
 
 
@@ -463,6 +468,81 @@ def run_queued(params, tape, detail=False):
             probes["queued_send_not_written"] = 1
     desc = ("queued", tx, params.get("together", True), st.get("s"))
     return _finish(cell, viol, probes, desc, True, detail, {"cell": tag, "sends_completed": st.get("s")})
+
+
+def run_stale(params, tape, detail=False):
+    """A host DATA frame is unacknowledged when the reset handshake completes (it was written just before the RST and the NCP reset before
+    answering, or it was written between the RST and the RSTACK by a concurrent caller - a keep-alive, say). The handshake completes on the
+    RSTACK(software); from then on the host direction restarts at frame number zero: nothing numbered in the old session goes out any more."""
+    tx, when = params["tx"], params["when"]
+    cell = Cell(tape, params.get("sched", True))
+    loop, rig = cell.loop, cell.rig
+    viol, probes = [], {"data_frame_unacknowledged_when_handshake_completes": 1}
+    res, st = {}, {}
+
+    async def main():
+        await cell.prior(tx, params.get("rx", 0))
+        cell.auto_ack = False
+        cell.auto_rstack = False
+        if when == "before-rst":
+            s1 = loop.create_task(cell.gw.send_data(b"old-session"))
+            await asyncio.sleep(0.01)
+            rt = loop.create_task(request(cell, "reset", res))
+        else:
+            rt = loop.create_task(request(cell, "reset", res))
+            await asyncio.sleep(0.0005)
+            s1 = loop.create_task(cell.gw.send_data(b"old-session"))
+        await asyncio.sleep(0.02)
+        st["t_rstack"] = loop.time() + 0.001
+        cell.peer_frm = 0
+        rig.peer_send(R.f_rstack(SW), delay=0.001)
+        await asyncio.sleep(0.1)
+        # the new session: the NCP (freshly reset) acknowledges what is in sequence for it and answers anything else the way UG101 says
+        expect = [0]
+
+        def on_frame(fr):
+            if fr[0] != "data":
+                return
+            if fr[1] == expect[0]:
+                expect[0] = (expect[0] + 1) % 8
+                rig.peer_send(R.f_ack(expect[0]), delay=0.001)
+            elif fr[2]:
+                rig.peer_send(R.f_ack(expect[0]), delay=0.001)
+            else:
+                rig.peer_send(R.f_nak(expect[0]), delay=0.001)
+
+        rig.on_frame = on_frame
+        s2 = loop.create_task(cell.gw.send_data(b"new-session"))
+        await asyncio.sleep(25.0)
+        st["s1"] = ("pending" if not s1.done() else "cancelled" if s1.cancelled() else "raised" if s1.exception() is not None else "ok")
+        st["s2"] = ("pending" if not s2.done() else "cancelled" if s2.cancelled() else repr(s2.exception()) if s2.exception() is not None else "ok")
+        for t_ in (s1, s2, rt):
+            if not t_.done():
+                t_.cancel()
+        await asyncio.sleep(0.01)
+
+    outcome, val = rig.run(main())
+    tag = f"DATA frame {tx} unacknowledged when the handshake completes (written {when})"
+    if outcome != "done":
+        viol.append(("C11.timeout", "sim-" + outcome, f"{tag}: simulation ended with {outcome}: {val!r}"))
+    else:
+        o = res.get("outcome")
+        if o is None or o[0] != "ok":
+            viol.append(("C11.only", "not-completed", f"{tag}: reset() ended {o and o[0]} {o and o[1]!r} although RSTACK(software) was delivered"))
+        else:
+            after = [(round(t_, 4), fr[1], fr[2], fr[4]) for (t_, fr) in rig.mon.tx_frames if fr[0] == "data" and t_ >= st["t_rstack"] + 1e-9]
+            stale = [a for a in after if a[3] == b"old-session"]
+            if stale:
+                viol.append(("C11.zero", "old-session-frame-after-handshake", f"{tag}: the handshake completed at t={st['t_rstack']:.4f}; afterwards the host wrote "
+                             f"{len(stale)} DATA frame(s) of the OLD session {[(a[0], 'frm %d' % a[1], 'reTx' if a[2] else 'first') for a in stale[:5]]} "
+                             f"(the freshly reset NCP can never acknowledge them: the send of the new session ended '{st.get('s2')}', failure notifications {rig.upper.notes[-2:]})"))
+            new = [a for a in after if a[3] == b"new-session" and not a[2]]
+            if new and new[0][1] != 0:
+                viol.append(("C11.zero", "host-numbering", f"{tag}: first DATA frame of the new session numbered {new[0][1]}"))
+            if st.get("s2") != "ok" and not stale:
+                viol.append(("C11.zero", "new-session-send-failed", f"{tag}: the first send of the new session ended {st.get('s2')}"))
+    desc = ("stale", tx, when, st.get("s1"), st.get("s2"))
+    return _finish(cell, viol, probes, desc, True, detail, {"cell": tag, "old_send": st.get("s1"), "new_send": st.get("s2")})
 
 
 def run_both(params, tape, detail=False):
